@@ -1,8 +1,13 @@
 package verifsim
 
 import (
+	"bytes"
 	"fmt"
 	"runtime"
+	"runtime/pprof"
+	"sort"
+	"strconv"
+	"strings"
 )
 
 // C20 (2): repeated iterations must not accumulate goroutines or open connections.
@@ -12,6 +17,57 @@ type orC20 struct {
 	gor   []int
 	conns []int
 	n     int
+	// steady runs: goroutines per entry function (the function the goroutine was started with)
+	byRoot []map[string]int
+	buf    bytes.Buffer
+}
+
+// goroutinesByRoot counts the live goroutines of the code under test by the function they were
+// started with; what a goroutine is doing at the moment does not change its class.
+func (o *orC20) goroutinesByRoot() map[string]int {
+	o.buf.Reset()
+	if pprof.Lookup("goroutine").WriteTo(&o.buf, 1) != nil {
+		return nil
+	}
+	res := map[string]int{}
+	n, root, daemon := 0, "", false
+	flush := func() {
+		// only goroutines of living daemon processes (a finished command-line run is a process
+		// that has exited: whatever it left behind is gone with it)
+		if n > 0 && root != "" && daemon {
+			res[root] += n
+		}
+		n, root, daemon = 0, "", false
+	}
+	for _, ln := range strings.Split(o.buf.String(), "\n") {
+		switch {
+		case strings.HasPrefix(ln, "# labels:"):
+			if i := strings.Index(ln, `"verif_inc":"`); i >= 0 && strings.Contains(ln, `"verif_kind":"daemon"`) {
+				inc := ln[i+len(`"verif_inc":"`):]
+				if j := strings.Index(inc, `"`); j >= 0 {
+					inc = inc[:j]
+				}
+				if d := o.m.s.daemons[inc]; d != nil && d.alive {
+					daemon = true
+				}
+			}
+		case strings.HasPrefix(ln, "#"):
+			f := strings.Fields(ln)
+			if len(f) >= 3 {
+				root = f[2]
+				if i := strings.LastIndex(root, "+0x"); i > 0 {
+					root = root[:i]
+				}
+			}
+		case strings.Contains(ln, " @ "):
+			flush()
+			n, _ = strconv.Atoi(strings.Fields(ln)[0])
+		case ln == "":
+			flush()
+		}
+	}
+	flush()
+	return res
 }
 
 func (o *orC20) name() string { return "C20" }
@@ -23,6 +79,19 @@ func (o *orC20) onIterLeave(it *iterRec) {
 	}
 	o.gor = append(o.gor, runtime.NumGoroutine())
 	o.conns = append(o.conns, int(openConns.Load()))
+	if o.m.s.spec.World.Steady {
+		o.byRoot = append(o.byRoot, o.goroutinesByRoot())
+	}
+}
+
+func minOf(x []int) int {
+	r := x[0]
+	for _, v := range x {
+		if v < r {
+			r = v
+		}
+	}
+	return r
 }
 
 func mean(x []int) float64 {
@@ -55,6 +124,32 @@ func (o *orC20) atEnd() {
 	c2, c3, c4 := o.conns[n/4:n/2], o.conns[n/2:3*n/4], o.conns[3*n/4:]
 	if mean(q4)-mean(q3) > 8 && mean(q3)-mean(q2) > 8 {
 		m.violate("C20", "growth", "goroutines-accumulate-in-steady-state", fmt.Sprintf("goroutines per quarter of the run: %.0f -> %.0f -> %.0f (%s)", mean(q2), mean(q3), mean(q4), m.s.spec.Variant))
+	}
+	// per entry function the quiescent level (minimum over a quarter of the run) must not climb
+	roots := map[string]bool{}
+	for _, x := range o.byRoot {
+		for k := range x {
+			roots[k] = true
+		}
+	}
+	var names []string
+	for k := range roots {
+		names = append(names, k)
+	}
+	sort.Strings(names)
+	for _, k := range names {
+		ser := make([]int, len(o.byRoot))
+		for i, x := range o.byRoot {
+			ser[i] = x[k]
+		}
+		nn := len(ser)
+		if nn < 40 {
+			break
+		}
+		a, b, c := minOf(ser[nn/4:nn/2]), minOf(ser[nn/2:3*nn/4]), minOf(ser[3*nn/4:])
+		if c > b && b > a && c-a >= 3 {
+			m.violate("C20", "growth", "goroutines-accumulate-in-steady-state:"+k, fmt.Sprintf("goroutines started as %s: quiescent level per quarter of the run %d -> %d -> %d (%s)", k, a, b, c, m.s.spec.Variant))
+		}
 	}
 	if mean(c4)-mean(c3) > 5 && mean(c3)-mean(c2) > 5 {
 		m.violate("C20", "growth", "connections-accumulate-in-steady-state", fmt.Sprintf("open connections per quarter of the run: %.0f -> %.0f -> %.0f (%s)", mean(c2), mean(c3), mean(c4), m.s.spec.Variant))
